@@ -239,12 +239,20 @@ def judge(case, t):
             break
     wrote = [h for h in t.handlers if h.kind == "w"]
     out = t.out.replace(b"\r", b"")
+    # every variable got an acceptable argument but more arguments follow: ERROR; whether the listed variables were stored before the
+    # surplus was noticed is not fixed by the statement
+    surplus = fail_at is None and comma and k >= len(c["vars"])
     for j, v in enumerate(c["vars"]):
         if v["type"] not in (BHEX, STR):
             continue
         got = final[(0, j)]
         init = (v["init"] + bytes(v["size"]))[:v["size"]]
-        if j in accepted:
+        if j in accepted and surplus:
+            dec = accepted[j]
+            want = dec + (b"\0" if v["type"] == STR else b"")
+            if got[:len(want)] != want and got != init:
+                return ("wrong-bytes", "variable %d (type %d size %d): %r has more arguments than variables; the variable should hold the decoded %r or its old %r, holds %r" % (j, v["type"], v["size"], args, want, init, got))
+        elif j in accepted:
             dec = accepted[j]
             want = dec + (b"\0" if v["type"] == STR else b"")
             if got[:len(want)] != want:
